@@ -2,7 +2,7 @@
 # usage: tools/seeded.sh <seed-dir e.g. /tmp/seed/C04/out/m1> <name e.g. C04-m1> <property> "<checks to run, e.g. C04 C01>"
 # Confirms a seeded change in a scratch copy (builds, existing suite passes, demo fails with / passes without),
 # stores it under /verif/seeded/<name>/ and runs the given checks against it (VERIF_REPO).
-SRC=$1; NAME=$2; PROP=$3; CHECKS=$4
+SRC=$1; NAME=$2; PROP=$3; CHECKS=$4; DEMODIR=${5:-leveldb}
 export GOFLAGS=-mod=mod GOPROXY=off GOSUMDB=off GOTOOLCHAIN=local
 OUT=/verif/seeded/$NAME
 mkdir -p $OUT
@@ -17,7 +17,7 @@ LOG=$OUT/confirm.log
 : > $LOG
 # place demo files: *_test.go go to leveldb/ unless a directory layout is given
 place_demo() {
-  for f in $OUT/*_test.go; do [ -f "$f" ] && cp $f $D/leveldb/; done
+  for f in $OUT/*_test.go; do [ -f "$f" ] && cp $f $D/$DEMODIR/; done
   for d in $OUT/*/; do b=$(basename $d); [ -d "$d" ] && [ "$b" != "." ] && ls $d/*.go >/dev/null 2>&1 && mkdir -p $D/leveldb/$b && cp $d/*.go $D/leveldb/$b/; done
 }
 DEMO_RUN='^TestSeed|^TestDemo|Seed|Demo'
@@ -34,7 +34,7 @@ L0=$(wc -l < $LOG)
 (timeout 900 go test -vet=off -count=1 -run "$DEMO_RUN" ./leveldb/... 2>&1 | tail -25) >> $LOG
 WITH=$(tail -n +$L0 $LOG | grep -c "^FAIL\|--- FAIL")
 echo "== existing suite WITH the change (demo files removed)" >> $LOG
-rm -f $D/leveldb/*seed*_test.go $D/leveldb/*demo*_test.go; for d in $OUT/*/; do b=$(basename $d); [ -d "$D/leveldb/$b" ] && [ -d "$d" ] && rm -rf $D/leveldb/$b; done
+rm -f $D/$DEMODIR/*seed*_test.go $D/$DEMODIR/*demo*_test.go; for d in $OUT/*/; do b=$(basename $d); [ -d "$D/leveldb/$b" ] && [ -d "$d" ] && rm -rf $D/leveldb/$b; done
 L1=$(wc -l < $LOG)
 (timeout 1500 go test -vet=off -count=1 -timeout 20m ./leveldb/... 2>&1 | tail -15) >> $LOG
 SUITE=$(tail -n +$L1 $LOG | grep -c "^FAIL\|--- FAIL\|panic:")
